@@ -5,6 +5,7 @@ package main
 // (gen + exec), (c) the Lean model's reference semantics (eval). Oracle of the property: (c).
 
 import (
+	"regexp"
 	"fmt"
 	"os"
 	"strconv"
@@ -106,6 +107,36 @@ func c01Sweep() []string {
 				res = append(res, "let stale = max(a, a + 1, a + 2, a + 3, a + 4, a + 5); ["+src+", stale][0]")
 			}
 		}
+	}
+	// unusual but legal names: a quoted identifier may contain anything but the quote. The compiler gives the anonymous slots
+	// of pushed arguments and receivers internal names; a user name must never coincide with one (round-5 seed C01-15: the
+	// internal names became "$<slot>", which `'$1'` spells). Every binding of the position sweep under such names, the slot
+	// digit ranging over the slots the containers push.
+	{
+		qre := regexp.MustCompile(`\bq[1-9]\b`)
+		prefixes := []string{"$", "#", "_", "@", ".", "", "%", "~", "arg", "slot", "<", " ", "\\", "?", "§", "$$", "'"}
+		base := append([]string{}, res...)
+		k := 0
+		for bi, src := range base {
+			if bi%2 == 1 || !qre.MatchString(src) {
+				continue // the plain form; the stale-slot form differs only in its prefix
+			}
+			for d := 0; d < 4; d++ {
+				k++
+				pf := prefixes[k%len(prefixes)]
+				if pf == "'" {
+					continue
+				}
+				name := "'" + pf + itoa(d) + "'"
+				res = append(res, qre.ReplaceAllLiteralString(src, name))
+				if pf != "$" && d == 1 {
+					res = append(res, qre.ReplaceAllLiteralString(src, "'$"+itoa((k/3)%4)+"'"))
+				}
+			}
+		}
+		res = append(res, "let '$1' = a * 100; let f = x -> max(x, '$1'); f(3)", "[a].append('$1' -> '$1' + 1).size()", "let '$0' = a; [1].append('$0')", "max(a, let '$1' = a * 10; '$1' + 1)",
+			"let 'let' = a; 'let' + 1", "let 'a b' = a; max('a b', 'a b' + 1)", "('$1', '$2') -> '$1' - '$2')(a, 1)")
+		res[len(res)-1] = "(" + res[len(res)-1]
 	}
 	// a name captured from the outer scope and bound again later in the same body (nearest binding wins)
 	res = append(res,
